@@ -39,6 +39,8 @@ def canonMap (l : List (Nat × Nat)) : List (Nat × Nat) :=
   let arr := l.foldl (fun (a : Array Nat) p => if p.1 < a.size then a.set! p.1 p.2 else a) (Array.replicate 65536 0)
   (List.range 65536).filterMap fun c => if arr.getD c 0 ≠ 0 then some (c, arr.getD c 0) else none
 
+def prefixes : List String := ["cmap4."]
+
 def handle (op : String) (fs : List (String × String)) : String :=
   if op == "cmap4.edges" then
     match (getField fs "map").bind parsePairs, (getField fs "v").bind String.toNat? with
